@@ -46,6 +46,11 @@ def step (st : St) (toks : List String) : St × String :=
       (⟨s'⟩, s!"status={showNatList (fb.map (·.1))} value={showRatList (fb.map (·.2))}")
     | none => (st, "bad-op")
   | ["clear"] => (⟨st.s.clear⟩, "ok")
+  | ["bounds", d, col] =>
+    -- stateless: the boundaries `_remap` derives from one dimension's buffered coordinates
+    match d.toNat?, parseRatList col with
+    | some d, some col => (st, showRatList (remapBoundaries (insertionSort col) d))
+    | _, _ => (st, "bad-op")
   | ["state"] => (st, dump st.s)
   | "retrieve" :: ms =>
     match ms.mapM parseRatList with
